@@ -14,6 +14,8 @@ package ipoe
 //	       (AAA approved, dataplane session created, lease) and checkpointed
 //	H<t>   same, but checkpointed half-established (AAA approved, dataplane session not yet created)
 //	X<t>   the PPPoE side gets a PADR on tuple t (always a new PPPoE session, claims, evicts what it displaced)
+//	A<t>   HA promotion: a session of tuple t synced from the formerly active node (a checkpoint in the HA-synced
+//	       namespace of the opdb) is installed by restoreFromHASync (nothing happens if the tuple has a session here)
 //	B      restart: new registry, new component restored from the opdb; the PPPoE side re-claims its live sessions
 //
 // After every op one token with all tuples, the op's tuple first:  t<t>:i<n>p<m>:<owner>
@@ -31,6 +33,8 @@ import (
 	"time"
 
 	"github.com/google/gopacket/layers"
+	hapb "github.com/veesix-networks/osvbng/api/proto/ha"
+	"google.golang.org/protobuf/proto"
 	"github.com/veesix-networks/osvbng/pkg/cache/memory"
 	"github.com/veesix-networks/osvbng/pkg/component"
 	"github.com/veesix-networks/osvbng/pkg/config"
@@ -188,6 +192,7 @@ func (w *c17RWorld) boot() {
 		}},
 		AAA: aaacfg.AAAConfig{Policy: []aaacfg.AAAPolicy{{Name: "p1", Type: aaacfg.PolicyTypeDHCP, Format: "$mac-address$"}}},
 	}
+	cfg.HA.SRGs = map[string]*config.SRGConfig{"grp": {Interfaces: []string{"TenGigE0/0"}}}
 	w.reg = session.NewRegistry()
 	w.bus = &c17RBus{}
 	c := &Component{
@@ -322,6 +327,24 @@ func c17RRun(f []string) (out string) {
 				w.n++
 				w.c.checkpointSession(sess)
 				w.waitStored(sess.SessionID)
+			}
+		case 'A':
+			if w.mine(t) == nil {
+				tp := c17RTuples[t]
+				w.n++
+				sid := fmt.Sprintf("ha-%d", w.n)
+				cp := &hapb.SessionCheckpoint{SessionId: sid, SrgName: "grp", Mac: tp.mac, OuterVlan: 100, InnerVlan: uint32(tp.cvl),
+					AaaSessionId: sid, Ipv4Address: net.IPv4(10, 1, byte(t), byte(w.n)).To4(), Ipv4LeaseTime: 3600, BoundAtNs: time.Now().UnixNano()}
+				data, err := proto.Marshal(cp)
+				if err != nil {
+					panic(err)
+				}
+				w.store.Put(context.Background(), opdb.NamespaceHASyncedIPoE, sid, data)
+				w.c.restoreFromHASync("grp")
+				w.bus.drain()
+				if w.mine(t) != nil {
+					w.waitStored(sid) // restoreFromHASync checkpoints the installed session asynchronously
+				}
 			}
 		case 'X':
 			w.n++
